@@ -55,10 +55,13 @@ pub fn gen_merge_plan(seed: u64) -> MergePlan {
     // current leader's log: term per index (index = position + 1)
     let mut log: Vec<u64> = (0..r.range(0, 4)).map(|_| 1u64).collect();
     let mut sent_before: Vec<MReq> = Vec::new();
+    let mut prev_leader_term = 0u64;
     for j in 0..n_leaders {
         let leader = 3 + j as u32;
         let term = 2 + j as u64 * r.range(1, 2);
-        let term = term.max(log.last().copied().unwrap_or(1) + 1);
+        // terms strictly increase from one leader to the next (one leader per term is C01's business, not C36's)
+        let term = term.max(log.last().copied().unwrap_or(1) + 1).max(prev_leader_term + 1);
+        prev_leader_term = term;
         if j > 0 {
             // the new leader holds a prefix of its predecessor's log (at least what was "committed")
             let keep = r.range((log.len() as u64).saturating_sub(4), log.len() as u64) as usize;
